@@ -133,7 +133,7 @@ func (p *parser) parseMessageText() (dataItem ast.ItemNode, ok bool) {
 	var length int
 	for i, b := range lengthBytes {
 		shift := (lengthBytesCount - i - 1) * 8
-		length += int(b << shift)
+		length += int(b) << shift
 	}
 	p.pos += lengthBytesCount
 	verifItem(p.pos, int(formatCode), lengthBytesCount, length)
